@@ -190,7 +190,7 @@ func (e *nilEngine) solve() {
 		// cell candidates: the one result points to a struct of the module with nillable fields
 		if n == 1 && e.p.isModuleFn(f) {
 			if pt, isPtr := f.Signature.Results().At(0).Type().Underlying().(*types.Pointer); isPtr {
-				if sst, isSt := pt.Elem().Underlying().(*types.Struct); isSt && sst.NumFields() <= 12 && !isProtoPkg(fnPkgPath(f)) {
+				if sst, isSt := pt.Elem().Underlying().(*types.Struct); isSt && sst.NumFields() <= 32 && !isProtoPkg(fnPkgPath(f)) {
 					var cs []string
 					for k := 0; k < sst.NumFields(); k++ {
 						if isNillable(sst.Field(k).Type()) {
@@ -232,7 +232,7 @@ func (e *nilEngine) solve() {
 					if !isPtr || !e.p.isModuleFn(f) {
 						continue
 					}
-					if sst, isSt := pt.Elem().Underlying().(*types.Struct); isSt && sst.NumFields() <= 12 {
+					if sst, isSt := pt.Elem().Underlying().(*types.Struct); isSt && sst.NumFields() <= 32 {
 						for k := 0; k < sst.NumFields(); k++ {
 							if isNillable(sst.Field(k).Type()) {
 								cs = append(cs, fmt.Sprintf("%d|%s", i, sst.Field(k).Name()))
@@ -515,14 +515,7 @@ func (e *nilEngine) solve() {
 								fmt.Sscanf(cpair[:i], "%d", &pi)
 								field = cpair[i+1:]
 							}
-							ok := false
-							if k, isC := rv.(*ssa.Const); isC {
-								if bv, _ := constBool(k); !bv {
-									ok = true
-								} else if _, has := st["NNC:"+canon(f.Params[pi])+"."+field]; has {
-									ok = true
-								}
-							}
+							ok := e.trueImpliesCell(rv, "NNC:"+canon(f.Params[pi])+"."+field, x.Block(), st, 0)
 							if ok {
 								keep = append(keep, cpair)
 							}
@@ -2740,4 +2733,43 @@ func hasDeleteOfType(fn *ssa.Function, t types.Type) bool {
 		}
 	}
 	return false
+}
+
+// trueImpliesCell: whenever the boolean rv is true, the fact `key` (a non-nil cell) holds: rv is the constant false,
+// the constant true where the state has the fact, a value computed in a block whose entry state has the fact (the
+// later conjuncts of `p.f != nil && ...`), or a phi of such values taken edge by edge.
+func (e *nilEngine) trueImpliesCell(rv ssa.Value, key string, at *ssa.BasicBlock, st fstate, d int) bool {
+	if d > 6 {
+		return false
+	}
+	switch x := rv.(type) {
+	case *ssa.Const:
+		if bv, isB := constBool(x); isB && !bv {
+			return true
+		}
+		_, has := st[key]
+		return has
+	case *ssa.Phi:
+		for i, ed := range x.Edges {
+			pred := x.Block().Preds[i]
+			pst, ok := e.in[pred]
+			if !ok {
+				return false
+			}
+			if !e.trueImpliesCell(ed, key, pred, pst, d+1) {
+				return false
+			}
+		}
+		return len(x.Edges) > 0
+	default:
+		if in, ok := rv.(ssa.Instruction); ok && in.Block() != nil {
+			if pst, ok := e.in[in.Block()]; ok {
+				if _, has := pst[key]; has {
+					return true
+				}
+			}
+		}
+		_, has := st[key]
+		return has
+	}
 }
